@@ -488,3 +488,46 @@ def interval():
         if str(n) not in sql:
             return f"Interval({kw}) renders {sql!r}"
     return None
+
+
+def fields_dedup():
+    from . import Table
+    t, v = Table("t"), Table("v")
+    got = (t.x == v.x).fields_()
+    if len(got) != 2:
+        return f"(t.x == v.x).fields_() == {got!r}: two distinct (table, column) references, {len(got)} element(s)"
+    return None
+
+
+def nodes_cover(cls_short, slot):
+    from . import Table, ValueWrapper
+    t = Table("t")
+    if cls_short.endswith("ValueWrapper"):
+        w = ValueWrapper(t.a)
+        if not w.fields_():
+            return f"ValueWrapper(t.a).fields_() == {w.fields_()!r} although it renders {str(w)!r}"
+    for label, obj in _objs_of(cls_short, "nodes_"):
+        child, trail = _slot_get(obj, "self." + slot)
+        if child is None:
+            continue
+        kids = child if isinstance(child, (list, tuple)) else [child]
+        for k in kids:
+            k = k[0] if isinstance(k, tuple) else k
+            if hasattr(k, "fields_") and k.fields_() and not set(map(str, k.fields_())) <= set(map(str, obj.fields_())):
+                return f"{label}: fields of slot {slot} {k.fields_()!r} are missing from fields_() == {obj.fields_()!r}"
+    return None
+
+
+def eq_hash(cls_short):
+    from . import Table, pk
+    t = Table("t")
+    if cls_short == "queries.Table":
+        a, b = t, t.for_(t.sys == 1)
+        if a == b and hash(a) != hash(b):
+            return "Table('t') == Table('t').for_(c) but their hashes differ"
+    qc = _builder_qc(cls_short)
+    if qc is not None:
+        q1, q2 = qc.from_("a").select("x"), qc.from_("b").select("y")
+        if q1 == q2 and hash(q1) != hash(q2):
+            return f"{qc.__name__}.from_('a') == {qc.__name__}.from_('b') (same alias None) but their hashes differ"
+    return None
